@@ -30,10 +30,10 @@ type call struct {
 func (c call) key() string { return c.Kind + ":" + c.NS + "/" + c.Name }
 
 type scenario struct {
-	Name    string   `json:"name"`
-	Pre     []call   `json:"pre"`     // sequential setup calls
-	PreFlush bool    `json:"preflush"` // PrepareFlush+Flush after the setup calls (names then live in files)
-	Threads [][]call `json:"threads"`
+	Name     string   `json:"name"`
+	Pre      []call   `json:"pre"`      // sequential setup calls
+	PreFlush bool     `json:"preflush"` // PrepareFlush+Flush after the setup calls (names then live in files)
+	Threads  [][]call `json:"threads"`
 }
 
 var scenarios = []scenario{
@@ -331,6 +331,10 @@ func main() {
 	f := vevid.ParseFlags()
 	rep := vevid.New("C09")
 	scratch = f.Scratch
+	if f.Part == "crash" {
+		runCrashPart(rep, f)
+		return
+	}
 	if f.Replay != "" {
 		var r replay
 		vevid.LoadReplay(f.Replay, &r)
